@@ -343,12 +343,15 @@ func desugarAdversarial() []*GSpec {
 		{Tokens: T2, Rules: []*GRule{rule("r0", prod(card(KOpt, er()), tk(1)), prod(tk(0), card(KOpt, er())))}},
 		{Tokens: T2, Rules: []*GRule{rule("r0", prod(tk(0), card(KStar, er()), tk(1)), prod(tk(1), card(KPlus, er())))}},
 		{Tokens: T2, Rules: []*GRule{rule("r0", prod(tk(0), er(), tk(1)), prod(tk(1), card(KStarF, er())))}},
-		// a user token called ERROR next to @error?: both sugar terms are named "ERROR?"
+		// a user token or rule called ERROR / EOF (reserved: helper rules are named after their
+		// terms and @error is named ERROR; D23)
 		{Tokens: []string{"ERROR", "TB"}, Rules: []*GRule{rule("r0", prod(card(KOpt, er()), tk(1), card(KOpt, tk(0))))}},
-		{Tokens: []string{"ERROR", "TB"}, Rules: []*GRule{rule("r0", prod(card(KOpt, tk(0)), tk(1), card(KOpt, er())))}},
 		{Tokens: []string{"TB", "ERROR"}, Rules: []*GRule{rule("r0", prod(tk(0), card(KPlus, tk(1))), prod(card(KStar, er()), tk(0)))}},
-		// a user token called EOF
 		{Tokens: []string{"EOF", "TB"}, Rules: []*GRule{rule("r0", prod(card(KOpt, tk(0)), tk(1)))}},
+		{Tokens: T2, Rules: []*GRule{rule("r0", prod(tk(1), card(KOpt, rl(1))), prod(tk(0), card(KOpt, er()))), rule("ERROR", prod(tk(0)))}},
+		{Tokens: T2, Rules: []*GRule{rule("r0", prod(card(KOpt, er()), tk(1), card(KOpt, rl(1)))), rule("ERROR", prod(tk(0)))}},
+		{Tokens: T2, Rules: []*GRule{rule("r0", prod(tk(1), card(KStar, rl(1))), prod(tk(0), card(KPlus, er()))), rule("ERROR", prod(tk(0)))}},
+		{Tokens: T2, Rules: []*GRule{rule("r0", prod(tk(1), card(KStar, rl(1)))), rule("EOF", prod(tk(0)))}},
 		// @error as a @list parameter (rejected by the front end)
 		{Tokens: T2, Rules: []*GRule{rule("r0", prod(lst(KList, er(), tk(1))))}},
 		{Tokens: T2, Rules: []*GRule{rule("r0", prod(lst(KListOpt, tk(0), er())))}},
